@@ -423,6 +423,52 @@ def write_once_ok(crate):
     return bad
 
 
+def _mentions(v, l):
+    """does the JSON fragment mention local `l` as (the base of) a place?"""
+    if isinstance(v, dict):
+        if 'l' in v and 'p' in v and v['l'] == l:
+            return True
+        return any(_mentions(x, l) for x in v.values())
+    if isinstance(v, list):
+        return any(_mentions(x, l) for x in v)
+    return False
+
+
+def compiler_pointer_check(b, bb, st):
+    """The alignment / null check rustc inserts before a raw-pointer dereference in builds with debug
+    assertions: `_a = ptr as usize (Transmute)`, then only `BitAnd` / `Eq` / `Not` on it within the block,
+    ending in `assert(.., "misaligned pointer dereference" | "null pointer dereference")`.  The address
+    reaches nothing but that assertion."""
+    if st['place']['p']:
+        return False
+    term = b.blocks[bb]['term']
+    if term['k'] != 'assert' or 'pointerdereference' not in (term.get('msg') or '').lower().replace(' ', ''):
+        return False
+    tainted = {st['place']['l']}
+    seen_def = False
+    for s2 in b.blocks[bb]['stmts']:
+        if s2 is st:
+            seen_def = True
+            continue
+        if not seen_def or s2['k'] != 'assign':
+            continue
+        if any(_mentions(s2['rv'], l) for l in tainted):
+            if s2['rv']['k'] not in ('bin', 'un') or s2['place']['p']:
+                return False
+            tainted.add(s2['place']['l'])
+    for bb2, blk in enumerate(b.blocks):
+        if bb2 == bb:
+            continue
+        for l in tainted:
+            if any(s2['k'] == 'assign' and _mentions(s2['rv'], l) for s2 in blk['stmts']) or _mentions({k: v for k, v in blk['term'].items() if k != 'span'}, l) and blk['term']['k'] != 'assert':
+                # (re-used temporaries are re-assigned before use; a use without a definition in between
+                # in another block would be a real flow — be conservative)
+                defs_here = [s2 for s2 in blk['stmts'] if s2['k'] == 'assign' and not s2['place']['p'] and s2['place']['l'] == l]
+                if not defs_here:
+                    return False
+    return True
+
+
 def scan_nondeterminism(ctx, crate, rule='N-DET', props=('C19',)):
     n_bodies = n_calls = 0
     for b in crate.bodies:
@@ -441,12 +487,12 @@ def scan_nondeterminism(ctx, crate, rule='N-DET', props=('C19',)):
             for ta in callee_ty_args(t):
                 if NONDET_TYPES.search(ta or ''):
                     ctx.add(list(props), rule, b.key, 'call instantiated with `%s` at %s' % (ta, fmt_span(t['span'])), key='%s|targ|%s' % (b.key, NONDET_TYPES.search(ta).group(1)))
-        for _, _, st in b.statements():
+        for bb_st, _, st in b.statements():
             if st['k'] == 'assign' and st['rv']['k'] == 'cast' and st['rv']['ck'] in ('PointerExposeProvenance', 'PointerExposeAddress'):
                 ctx.add(list(props), rule, b.key, 'pointer-to-integer cast at %s (addresses differ between runs)' % fmt_span(st.get('span')), key='%s|ptr2int' % b.key)
             if st['k'] == 'assign' and st['rv']['k'] == 'cast' and st['rv']['ck'] == 'Transmute' and st['rv']['ty'] in ('usize', 'u64') and not (st.get('span') or {}).get('exp'):
                 src = op_place(st['rv']['op'])
-                if src and (src.get('ty') or '').startswith(('*', '&')):
+                if src and (src.get('ty') or '').startswith(('*', '&')) and not compiler_pointer_check(b, bb_st, st):
                     ctx.add(list(props), rule, b.key, 'pointer transmuted to an integer at %s' % fmt_span(st.get('span')), key='%s|ptr2int' % b.key)
             # addresses as identity / order: comparing raw pointers
             if st['k'] == 'assign' and st['rv']['k'] == 'bin' and st['rv']['op'] in ('Eq', 'Ne', 'Lt', 'Le', 'Gt', 'Ge') and not (st.get('span') or {}).get('exp'):
